@@ -57,6 +57,7 @@ fn main() {
                 budget_s: arg(&args, "--budget-s").and_then(|s| s.parse().ok()).unwrap_or(0.0),
                 emit: arg(&args, "--emit").map(|s| s.to_string()),
                 batch: arg(&args, "--batch").map(|s| s.to_string()),
+                corpus: arg(&args, "--corpus").map(|s| s.to_string()),
             };
             let code = runner::worker(opts);
             std::process::exit(code);
